@@ -3,6 +3,25 @@ import json, os
 VERIF = os.path.dirname(os.path.dirname(os.path.abspath(__file__)))
 PROOF = "proof"
 CHECKS = {
+ "C06": dict(
+    text="Lean 4 theorems: the interface sweep of tn.dot returns Σ t·u (any modes/ranks/formats), normsq, symmetry, the dist identity "
+         "‖t‖²+‖u‖²−2⟨t,u⟩ = Σ(t−u)² (so the clamped radicand is the squared distance also for negative inner products), sums over "
+         "modes as ones-matrices applied per mode (L1). Model (dot, sum with/without keepdim through the C03 getitem model) tied to "
+         "/repo by exact comparison; all other metrics (partial dot, mean/var/std, moments, metric laws, marginals) by a dense oracle search.",
+    note="Trusted: Lean kernel + standard axioms; harness glue; NumPy oracle; sampling. Outside the theorems: square roots and clamps "
+         "(norm, dist, std are sqrt of proved quantities), float cancellation in the dist radicand, raw/normalised moments (rounding "
+         "algorithm, oracle at 1e-4), triangle inequality (checked numerically only).",
+    tech="Lean 4 proof (interface-matrix invariant, five-fold sum reordering, L1) + differential correspondence + dense oracle search",
+    ref="§3 C06"),
+ "C12": dict(
+    text="Lean 4 theorems: every routine acting on the spatial index of modes is linModes with one matrix per mode (general theorem "
+         "linModes_dense = tensor-times-matrix along any modes); gathers (flip, tiling, slicing) re-index the array; cumsum, zero padding "
+         "as instances; eye(n,m) is the identity; full/ones/zeros constant; transposition reverses the index. Models of flip/cumsum/pad/ttm "
+         "tied to /repo core-for-core; cat, repeat, pad with a constant, meshgrid, mask, reduce and the creation routines by a dense oracle search.",
+    note="Trusted: Lean kernel + standard axioms; harness glue; NumPy/PyTorch as oracle; sampling. cat/reduce/mask/meshgrid/arange/"
+         "linspace/logspace/gaussian/rand have no Lean model of their own (cat = embedding + C02 add; mask = C02 mul after a gather).",
+    tech="Lean 4 proof (L1 at code level: applyMaps, selection lemma) + differential correspondence + dense oracle search",
+    ref="§3 C12"),
  "C11": dict(
     text="Lean 4 theorems about the model of _setitem (this − restriction + embedded value): selected entries take the value, all others "
          "are unchanged, for scalar and tensor values, every number of modes/sizes/ranks/formats and every selection start+i·step; "
